@@ -113,6 +113,11 @@ pub fn plan(id: &str, tier: &str, seed: u64, round: u64) -> Plan {
                         c.parse_err = Some(true);
                         c.allow_default = i % 8 == 7;
                     }
+                    // a few large enums
+                    if i % 64 == 5 {
+                        c.min_variants = 40;
+                        c.max_variants = 60;
+                    }
                     gen::gen_string(&mut rg, &c)
                 })
                 .collect();
@@ -382,8 +387,12 @@ pub fn plan(id: &str, tier: &str, seed: u64, round: u64) -> Plan {
                 }
             }
             let extra = if thorough { 640 } else { 258 };
-            for _ in 0..extra {
-                specs.push(gen::gen_iter(&mut rg, &base));
+            for k in 0..extra {
+                let mut b = base.clone();
+                if k % 40 == 7 {
+                    b.max_variants = 70; // a few large enums
+                }
+                specs.push(gen::gen_iter(&mut rg, &b));
             }
             name_specs(&mut specs, round);
             Plan {
